@@ -674,7 +674,8 @@ class C04(Check):
             if rng.random() < 0.04: flags |= EMERG
             if rng.random() < 0.03: cmd = rng.choice([5, 7, 0xffff])
             buf = rng.choice([1, 1, 2, 3, 0, 9]) if rng.random() < 0.2 else None
-            return fm(cmd, rng.choice(MATCHES), rng.choice(PRIOS), flags,
+            pool = MATCHES + ([M_ARP_EXACT] if self.cfg[5] else []) + ([M_ALL_RAWIP] if self.cfg[4] else [])   # input classes of D26 / D38 once repaired
+            return fm(cmd, rng.choice(pool), rng.choice(PRIOS), flags,
                       out_port=(rng.choice([NONE, NONE, 2, 3, 4]) if cmd in (DELETE, DELETE_STRICT) else rng.choice([NONE, 2])),
                       acts=(ACTS[rng.choice(BUF_ACTS)] if buf is not None else rng.choice(ACTS)), idle=rng.choice([0, 0, 1, 2, 3]),
                       hard=rng.choice([0, 0, 1, 3, 5]), cookie=rng.randint(0, 2 ** 64 - 1), buf=buf)
@@ -700,6 +701,6 @@ C04.theorems = ["Pox.C04." + t for t in (
     "table_sorted", "table_sorted_init", "table_sorted_prefix", "no_duplicates", "removed_once", "departures_leave", "expiry_window", "clock_inv",
     "flowmod_refines_partial", "history_refines_partial", "regular_repaired", "history_refines_repaired", "removed_stream_refines",
     "selection_meaning", "overlap_meaning", "overlap_check_exact", "partial_overlap_witness", "cidr_overlap_witness",
-    "strict_hostbits_defect", "undefined_bits_defect", "stats_unwired_defect", "history_refines_full_defect_head",
+    "strict_hostbits_defect", "undefined_bits_defect", "stats_unwired_defect", "exact_rank_defect", "history_refines_full_defect_head",
     "history_refines_full_defect_repaired")]
 CHECK = C04
